@@ -153,7 +153,7 @@ var prop = vh.Define("C02", "roundtrip", func(c Case, r *vh.R) {
 			r.Class("refused-digest-header-present")
 			return
 		}
-		e1, err := signedexchange.ReadExchange(bytes.NewReader(buf.Bytes()))
+		e1, err := signedexchange.ReadExchange(gen.Source(buf.Bytes(), gen.SourceModeOf(buf.Bytes())))
 		if err != nil {
 			r.Failf("read-error", "the library signed and wrote an exchange whose integrity header was present before encoding (%s); ReadExchange: %v", c.PresetDigest, err)
 			return
@@ -233,7 +233,7 @@ var prop = vh.Define("C02", "roundtrip", func(c Case, r *vh.R) {
 		r.Class("over-limit")
 		if werr == nil {
 			// a file was emitted although a length does not fit; show that it reads back differently
-			_, rerr := signedexchange.ReadExchange(bytes.NewReader(buf.Bytes()))
+			_, rerr := signedexchange.ReadExchange(gen.Source(buf.Bytes(), gen.SourceModeOf(buf.Bytes())))
 			r.Failf("write-accepted-oversize", "Write succeeded although %s (url=%d sig=%d headers=%d bytes); reading the file back: err=%v", why, ul, sl, hl, rerr)
 		}
 		return
